@@ -63,6 +63,44 @@ func absMsg(md protoreflect.MessageDescriptor, m proto.Message) []int {
 	return res
 }
 
+// absSubField is the harness' own projection of one top-level field onto some of its sub-fields: the number of
+// (field i of m with, in the message or in every message of the list it holds, only the fields named in keep),
+// 0 if m does not populate the field.  Written with protoreflect only, independent of pkg/masks.
+func absSubField(md protoreflect.MessageDescriptor, m proto.Message, i int, keep map[string]bool) int {
+	if m == nil || !m.ProtoReflect().IsValid() {
+		return 0
+	}
+	r := m.ProtoReflect()
+	fd := r.Descriptor().Fields().Get(i)
+	if !r.Has(fd) {
+		return 0
+	}
+	restrict := func(src protoreflect.Message) protoreflect.Message {
+		c := proto.Clone(src.Interface()).ProtoReflect()
+		c.Range(func(f protoreflect.FieldDescriptor, _ protoreflect.Value) bool {
+			if !keep[string(f.Name())] {
+				c.Clear(f)
+			}
+			return true
+		})
+		return c
+	}
+	one := r.New()
+	if fd.IsList() {
+		src, dst := r.Get(fd).List(), one.Mutable(fd).List()
+		for k := 0; k < src.Len(); k++ {
+			dst.Append(protoreflect.ValueOfMessage(restrict(src.Get(k).Message())))
+		}
+	} else {
+		one.Set(fd, protoreflect.ValueOfMessage(restrict(r.Get(fd).Message())))
+	}
+	b, err := proto.MarshalOptions{Deterministic: true}.Marshal(one.Interface())
+	if err != nil {
+		panic(err)
+	}
+	return reg.id(string(md.FullName()) + "#" + string(fd.Name()) + "#" + string(b))
+}
+
 func sameVec(a, b []int) bool {
 	if len(a) != len(b) {
 		return false
